@@ -174,14 +174,19 @@ CHECKS['C01'] = dict(
          'transposing to file order. Hypothesis "dimensions <= points per side" is exactly the known finding KF-D5a.',
     ref='§5 C01')
 CHECKS['C10'] = dict(
-    technique='Lean 4 theorems (refusal and shape theorems over the flattening model) + differential correspondence with round-trip oracle',
-    text=('Theorems (Usid/Properties/C10.lean): an element-count mismatch, or an axis-count mismatch not explained by a '
-          'single-point side, is refused with ValueError for every array and index matrices; anything returned has '
-          'shape (N, M). PARTIAL: the inverse theorems (flatten . reshape = id and back) are not yet proved in Lean; the '
-          'round trip is decided on every generated dataset by the oracle (h5py / numpy / dask ancillaries, dask data, '
-          'kept or squeezed size-1 axes, one-sided requests checked against the slowest-to-fastest convention) and the '
-          'executable model of reshape_from_n_dims (all three branches) is compared with the implementation.'),
-    note=COMMON_NOTE + 'numpy/dask transpose/reshape semantics assumed.',
+    technique='Lean 4 theorems: both inverse laws of flatten / reshape for every regular grid and storage permutation, refusal and shape theorems + differential correspondence with round-trip oracle',
+    text=('Theorems (Usid/Properties/C10.lean): flatten_reads_coordinates - for EVERY pair of regular grids (any sizes, any '
+          'storage permutation, dimensions <= points, >= 1 dimension per side) and EVERY N-D array of the file-order shape, '
+          'reshape_from_n_dims with both index matrices succeeds and element (r, c) of the result is the array element at '
+          '(position indices of row r ++ spectroscopic indices of column c); flatten_of_reshape - flattening the N-D form '
+          'of main returns exactly main (as arrays, not just element-wise); reshape_of_flatten - reshaping the flattened '
+          'matrix returns exactly the N-D array (uses surjectivity of the grid enumeration, coords_surj); '
+          'incompatible_raises / rank_mismatch_raises (an element-count mismatch, or an axis-count mismatch not explained '
+          'by a single-point side, is refused for every input); result_shape. PARTIAL: the one-sided variants (only one '
+          'index matrix supplied, missing side slowest-to-fastest) and squeezed size-1 axes are modelled executably and '
+          'decided by the round-trip oracle and the model comparison, not by a theorem. Correspondence: h5py / numpy / '
+          'dask ancillaries, dask data, kept or squeezed size-1 axes, one-sided requests, all three branches.'),
+    note=COMMON_NOTE + 'numpy/dask transpose/reshape semantics are modelled by NDArr (C order) and checked by the correspondence.',
     ref='§5 C10')
 
 CHECKS['C07'] = dict(
